@@ -905,8 +905,9 @@ Qed.
 Theorem Inv_cache_live : forall s, InvAll s -> cache_live s = true.
 Proof.
   intros s (SS & IV). unfold cache_live. apply andb_true_iff. split.
-  - eapply clive_bool; eauto. exact I. apply (I_ctop _ _ _ _ _ IV).
-  - apply forallb_forall. intros P IP. eapply clive_bool; eauto. apply (I_cpar _ _ _ _ _ IV P IP).
+  - apply (clive_bool _ _ _ _ _ None (s_fl s) IV I (I_ctop _ _ _ _ _ IV)).
+  - apply forallb_forall. intros P IP.
+    apply (clive_bool _ _ _ _ _ (Some P) (e_fl P) IV IP (I_cpar _ _ _ _ _ IV P IP)).
 Qed.
 
 (* every pointer in a subfield array designates a live metafield that points back *)
